@@ -212,6 +212,11 @@ def sweep(tier="quick", seed=0, unsupported=()):
 
 
 def replay(contract, label, model, note=""):
+    if "keyword_arguments_reach" in label or "kwargs_routed" in label:
+        from . import c17
+
+        f = c17.recurrent_kwargs_case()
+        return {"reproduced": f is not None, "failure": f, "concrete": f["input"] if f else None}
     r = sweep("quick", 0)
     if r["failures"]:
         return {"reproduced": True, "failure": r["failures"][0], "concrete": r["failures"][0]["input"]}
